@@ -21,6 +21,10 @@ checks = {
  "C11": dict(cat="other", tech="bounded symbolic execution of go/ssa + SMT (z3): symbolic values, flush placement, buffer positions and read fragmentation",
     text="The real p2p.Conn code (real buffer sizes, real writer goroutine under a cooperative scheduler) is executed symbolically on four operation families; sent values, flush placement, the write position near the end of the 64 KiB buffer, unread bytes at the end of the 1 MiB read buffer and the size of every transport read are symbolic. Assertions: documented big-endian encoding, received = sent in order, Close delivers everything, counters = bytes moved.",
     ref="DESIGN.md C11", engine="gosymx"),
+ "C12": dict(cat="translation_validation", tech="SMT miter (z3) between the folded and the run-time compilation of one expression, free input quantified by the solver",
+    text="For each (operator, intN/uintN type, pair of boundary constants, consumer) the real compiler compiles the folded program K(T(cx) op T(cy), a) and the run-time program K(x op y, a); z3 proves the folded circuit equal to the run-time circuit with (cx,cy) substituted for ALL values of the free input a. The constant grid is enumerated and stated. Five classes of genuine folding defects are reported as known findings; anything else is a violation.",
+    ref="DESIGN.md C12", engine="circtv", script="python3-vt",
+    note="Trusted base: z3, the gate-to-term translation. The value quantifier over the constants themselves is a boundary grid (constants are program text and cannot be made symbolic); stated in the evidence."),
  "C13": dict(cat="other", tech="bounded symbolic execution of go/ssa + SMT (z3) with a symbolic math/big.Int model and symbolic hex text",
     text="IOArg.Set (scalar, compound, byte array), Sizes/bitLen, IOArg.Parse on hex array literals with symbolic digits (incl. elements wider than 64 bits) and mpc.Result are executed symbolically; every bit-layout, agreement, minimal-size, inverse and purity assertion is an SMT obligation over all values. Two defects found this way were repaired (fix: commits a47b49e, a408df4).",
     ref="DESIGN.md C13", engine="gosymx"),
